@@ -30,11 +30,11 @@ RULE = ("call recipes: one deterministic call of every public function family (c
         "concat, stack, unstack, reshape family, broadcast, rechunk, pad, searchsorted, isin, matmul family, qr, svd, map_blocks, "
         "map_overlap, apply_gufunc, groupby, a composition) x configuration variants; generated programs: harness/exprgen.py "
         "(<=4 dims of 0..13, independent chunkings, all dtypes, depth<=4) x variants (quick: baseline + explicit non-default + 3 "
-        "sampled variants per case, thorough: all 13); non-trivial = the case builds more than one array; distinct by recipe/program "
+        "sampled variants per case, thorough: all 14); non-trivial = the case builds more than one array; distinct by recipe/program "
         "and variant")
 ASSUMPTIONS = [
-    "xarray is not installed: the xarray branch of asarray (`asarray(a.data)`, pragma: no cover) is in the site table as kind selfUnwrap, "
-    "excluded from the theorem's helper kinds, and exercised only through a stand-in object (listed finding asarray-xarray-unwrap-drops-spec)",
+    "xarray is not installed: the xarray branch of asarray (`asarray(a.data, dtype=…, chunks=…, spec=spec)`, pragma: no cover) is "
+    "exercised through a stand-in object (class module \"xarray.core.dataarray\", `.data`) as a must-hold regression case",
     "one configuration per expression: every input of an expression is created under the same configuration (the property's setting); "
     "mixing default-config arrays with arrays of an explicit field-wise equal Spec is also exercised",
     "allowed_mem suffices for the plan in the value sweep; the tight sweep compares decisions at equal allowed−reserved",
@@ -163,15 +163,14 @@ def same_values(a, b):
 
 
 def classify(case, base, got):
-    """Name of a listed defect this failure is an instance of, or None."""
-    if case.get("probe") == "asarray-xarray-standin" and base["phase"] == "ok" and got["phase"] == "build" \
-            and got["exc"] == "ValueError" and "same spec" in got["msg"]:
-        return "asarray-xarray-unwrap-drops-spec"
+    """Name of a listed defect this failure is an instance of, or None.  No C19 defect is listed: the two found so far
+    (searchsorted helper array, xarray unwrap in asarray) are fixed in the tree, so any recurrence is a violation."""
     return None
 
 
 def probe_xarray_unwrap(ctx, tmp):
-    """asarray() unwraps xarray objects by re-entering asarray(a.data).  xarray is not installed, so the branch is driven
+    """Regression case (fixed by 8171939): asarray() unwraps xarray objects by re-entering asarray(a.data, …, spec=spec) and
+    must forward the spec.  xarray is not installed, so the branch is driven
     with a stand-in that has the two things the branch looks at (module name starts with "xarray", a `.data` attribute)."""
     import types
 
@@ -627,7 +626,7 @@ def oracle(ctx, n_programs=None, sample="auto"):
         sweep(ctx, recipe_cases(), variants, sample=sample, kind="recipe")
         tm["oracle_recipes"] = round(time.time() - t0, 1)
         t0 = time.time()
-        n = n_programs if n_programs is not None else ctx.budget(20, 60)
+        n = n_programs if n_programs is not None else ctx.budget(20, 40)
         progs = [program_case(ctx.rng) for _ in range(n)]
         sweep(ctx, progs, variants, sample=sample, kind="program")
         tm["oracle_programs"] = round(time.time() - t0, 1)
